@@ -10,6 +10,7 @@ use crate::refmodel::fields;
 use crate::refmodel::instant as ins;
 use astrolabe::{DateTime, DateUtilities, Offset, OffsetUtilities, Time, TimeUtilities};
 use serde_json::{json, Value};
+use std::cell::RefCell;
 use stateright::{Checker, Model, Property};
 use std::hash::{Hash, Hasher};
 use std::sync::atomic::{AtomicU64, Ordering};
@@ -39,6 +40,8 @@ pub enum DtMenu {
     Arithmetic,
     SetClear,
     Calendar,
+    /// month / year arithmetic (which may clamp the day) interleaved with the date setters and clears
+    Mixed,
 }
 
 #[derive(Clone, Debug)]
@@ -355,6 +358,23 @@ pub fn dt_menu(kind: DtMenu) -> Vec<DtOp> {
             m.push(DtOp::Unit(3, 1)); // sub_hours(1): moves across a local/UTC day boundary
             m.push(DtOp::Unit(12, 1));
         }
+        DtMenu::Mixed => {
+            for o in 0..4 {
+                for n in [1u32, 12, 13] {
+                    m.push(DtOp::Cal(o, n));
+                }
+            }
+            for (f, vals) in [(0usize, vec![-5i64, 1, 2023, 2028, 2030]), (1, vec![2, 3, 9, 12, 13]), (2, vec![28, 29, 30, 31]), (3, vec![60, 366])] {
+                for v in vals {
+                    m.push(DtOp::Set(f, v));
+                }
+            }
+            m.push(DtOp::Clear(1));
+            m.push(DtOp::Clear(2));
+            for o in [0, 9_015] {
+                m.push(DtOp::SetOff(o));
+            }
+        }
         DtMenu::Calendar => {
             for o in 0..4 {
                 let ns: &[u32] = if o < 2 { &[1, 11, 12, 13, 25, 1_200, 4_799] } else { &[1, 3, 4, 100, 400] };
@@ -381,7 +401,7 @@ pub fn dt_inits(kind: DtMenu) -> Vec<(i64, u64, i32)> {
         cal::MIN_DAY + 3, cal::MAX_DAY - 3,
     ];
     let nods = [0u64, 1, 84_600_123_456_789, ab::DAY_NS - 1];
-    if kind == DtMenu::Calendar {
+    if kind == DtMenu::Calendar || kind == DtMenu::Mixed {
         for (y, mo, d) in [(2024i64, 1u32, 31u32), (2024, 2, 29), (2023, 3, 31), (2023, 12, 31), (0, 2, 29), (-4, 2, 29), (0, 12, 31), (1, 1, 31), (-400, 2, 29), (1900, 1, 30), (2000, 8, 31), (5_879_610, 12, 31), (-5_879_609, 1, 31)] {
             for n in [0u64, 43_200_000_000_000] {
                 v.push((cal::days_from_civil(y, mo, d), n, 0));
@@ -409,7 +429,7 @@ pub fn run_datetime_machine(rep: &mut Report, depth: u8, kind: DtMenu) {
     let checker = make().checker().threads(sr_threads(rep)).spawn_bfs().join();
     let unique = checker.unique_state_count() as u64;
     let n_trans = transitions.load(Ordering::Relaxed);
-    let name = format!("E2:stateright DateTime machine ({}) depth {}", match kind { DtMenu::Arithmetic => "arithmetic", DtMenu::SetClear => "set/clear/offset", DtMenu::Calendar => "month/year/day arithmetic" }, depth);
+    let name = format!("E2:stateright DateTime machine ({}) depth {}", match kind { DtMenu::Arithmetic => "arithmetic", DtMenu::SetClear => "set/clear/offset", DtMenu::Calendar => "month/year/day arithmetic", DtMenu::Mixed => "month/year arithmetic interleaved with date setters" }, depth);
     let mut acc = Acc::default();
     acc.states = unique;
     acc.transitions = n_trans;
@@ -443,8 +463,88 @@ pub fn run_datetime_machine(rep: &mut Report, depth: u8, kind: DtMenu) {
     eprintln!("[{} {}] E2 machine unique={} transitions={} {:.1}s", rep.ctx.prop, crate::engine::PROFILE, unique, n_trans, t0.elapsed().as_secs_f64());
 }
 
+/// Stateless re-execution of every operation sequence of the machine: each path is run from its
+/// initial value to its end on one thread without anything in between. The BFS above keeps live
+/// values in its states and expands them in any order on any thread, which is only sound for state
+/// that lives *in the value*; state the implementation keeps elsewhere (a thread-local memo, a
+/// scratch buffer) travels along a path only when the path is executed in one piece.
+pub fn run_datetime_paths(rep: &mut Report, depth: u8, kind: DtMenu) {
+    let menu = dt_menu(kind);
+    let inits = dt_inits(kind);
+    let m = menu.len() as u64;
+    let per_init = m.pow(depth as u32);
+    let total = inits.len() as u64 * per_init;
+    let label = match kind { DtMenu::Arithmetic => "arithmetic", DtMenu::SetClear => "set/clear/offset", DtMenu::Calendar => "month/year/day arithmetic", DtMenu::Mixed => "month/year arithmetic interleaved with date setters" };
+    let name = format!("E2:path re-execution, DateTime machine ({}) depth {}: {} initial values x {}^{} operation sequences", label, depth, inits.len(), m, depth);
+    thread_local! {
+        static PREVIOUS_PATH: RefCell<Value> = RefCell::new(Value::Null);
+    }
+    rep.sweep(&name, total, "every operation sequence executed from its initial value in one piece on one thread (carries hidden state along the path, and from the path executed just before on that thread, which a violation records as 'previous')", |i, acc| {
+        let (d, n, o) = inits[(i / per_init) as usize];
+        let mut k = i % per_init;
+        let mut real = match dt_from_off(d, n, o) {
+            Some(r) => r,
+            None => return,
+        };
+        let (mut inst, mut off) = (ins::join(d, n), o);
+        let mut ops: Vec<Value> = vec![];
+        for _ in 0..depth {
+            let op = &menu[(k % m) as usize];
+            k /= m;
+            let exp = dt_expect(inst, off, op);
+            if matches!(exp, Expect::Skip) {
+                return;
+            }
+            ops.push(op_to_json(op));
+            acc.transitions += 1;
+            let got = dt_apply(&real, op);
+            let bad = match (exp, got) {
+                (Expect::Panic, Out::Panic(_)) | (Expect::Refuse, Out::Err(_)) => {
+                    acc.branch("path-ends-in-expected-panic-or-refusal");
+                    PREVIOUS_PATH.with(|p| *p.borrow_mut() = json!({"init": [d, n.to_string(), o], "ops": ops}));
+                    return;
+                }
+                (Expect::Value(ei, eo), Out::Val(v)) => {
+                    let gi = dt_instant(&v);
+                    let go = off_secs(v.get_offset());
+                    if gi == Some(ei) && go == eo {
+                        real = v;
+                        inst = ei;
+                        off = eo;
+                        None
+                    } else {
+                        Some(format!("op {:?}: expected instant {} offset {}, observed instant {:?} offset {} ({:?})", op, ei, eo, gi, go, v))
+                    }
+                }
+                (e, g) => Some(format!("op {:?}: expected {}, observed {}", op, match e { Expect::Panic => "panic".to_string(), Expect::Refuse => "Err(OutOfRange)".to_string(), Expect::Value(ei, eo) => format!("instant {} offset {}", ei, eo), Expect::Skip => String::new() }, g.show())),
+            };
+            if let Some(b) = bad {
+                let previous = PREVIOUS_PATH.with(|p| p.borrow().clone());
+                acc.violation(&describe(op), &format!("path-of-{}-executed-in-one-piece", ops.len()), json!({"kind": "machine", "init": [d, n.to_string(), o], "ops": ops, "previous": previous}), "agreement with the reference model at every step".into(), b);
+                return;
+            }
+            PREVIOUS_PATH.with(|p| *p.borrow_mut() = json!({"init": [d, n.to_string(), o], "ops": ops}));
+        }
+        acc.states += 1;
+        acc.branch("path-completed");
+    });
+}
+
 /// Replay a recorded machine path without the explorer.
 pub fn replay_datetime(case: &Value, acc: &mut Acc) {
+    // the path executed just before on the same thread (recorded by the path re-execution sweep)
+    if case["previous"].is_object() {
+        let prev = &case["previous"];
+        let pi = &prev["init"];
+        if let Some(mut v) = dt_from_off(pi[0].as_i64().unwrap(), pi[1].as_str().unwrap().parse::<u64>().unwrap(), pi[2].as_i64().unwrap() as i32) {
+            for opv in prev["ops"].as_array().unwrap() {
+                match dt_apply(&v, &op_from_json(opv).unwrap()) {
+                    Out::Val(n) => v = n,
+                    _ => break,
+                }
+            }
+        }
+    }
     let init = &case["init"];
     let (d, n, o) = (init[0].as_i64().unwrap(), init[1].as_str().unwrap().parse::<u64>().unwrap(), init[2].as_i64().unwrap() as i32);
     let mut real = match dt_from_off(d, n, o) {
@@ -766,7 +866,61 @@ pub fn run_time_machine(rep: &mut Report, depth: u8) {
     eprintln!("[{} {}] E2 Time machine unique={} transitions={} {:.1}s", rep.ctx.prop, crate::engine::PROFILE, unique, n_trans, t0.elapsed().as_secs_f64());
 }
 
+/// Stateless re-execution of every operation sequence of the Time machine (see run_datetime_paths)
+pub fn run_time_paths(rep: &mut Report, depth: u8) {
+    let menu = tm_menu();
+    let mut inits: Vec<(u64, i32)> = vec![];
+    for n in [0u64, 1, 43_200_000_000_000, 82_800_000_000_000, ab::DAY_NS - 1] {
+        for o in [0, 3600] {
+            inits.push((n, o));
+        }
+    }
+    let m = menu.len() as u64;
+    let per_init = m.pow(depth as u32);
+    thread_local! {
+        static PREVIOUS_PATH: RefCell<Value> = RefCell::new(Value::Null);
+    }
+    rep.sweep(&format!("E2:path re-execution, Time machine depth {}: {} initial values x {}^{} operation sequences", depth, inits.len(), m, depth), inits.len() as u64 * per_init, "every operation sequence executed from its initial value in one piece on one thread", |i, acc| {
+        let (n, o) = inits[(i / per_init) as usize];
+        let mut k = i % per_init;
+        let mut real = crate::real::time_from(n, o).unwrap();
+        let (mut nanos, mut off) = (n, o);
+        let mut ops: Vec<Value> = vec![];
+        for _ in 0..depth {
+            let op = &menu[(k % m) as usize];
+            k /= m;
+            ops.push(tm_op_to_json(op));
+            acc.transitions += 1;
+            let exp = tm_expect(nanos, off, op);
+            let got = tm_apply(&real, op);
+            if let Some(d) = tm_judge(&got, exp) {
+                let previous = PREVIOUS_PATH.with(|p| p.borrow().clone());
+                acc.violation(&tm_op_name(op), &format!("path-of-{}-executed-in-one-piece", ops.len()), json!({"kind": "machine", "init": [n.to_string(), o], "ops": ops, "previous": previous}), format!("nanos {} offset {}", exp.0, exp.1), d);
+                return;
+            }
+            if let Out::Val(v) = got {
+                real = v;
+            }
+            nanos = exp.0;
+            off = exp.1;
+        }
+        PREVIOUS_PATH.with(|p| *p.borrow_mut() = json!({"init": [n.to_string(), o], "ops": ops}));
+        acc.states += 1;
+        acc.branch("path-completed");
+    });
+}
+
 pub fn replay_time(case: &Value, acc: &mut Acc) {
+    if case["previous"].is_object() {
+        let prev = &case["previous"];
+        if let Some(mut v) = crate::real::time_from(prev["init"][0].as_str().unwrap().parse::<u64>().unwrap(), prev["init"][1].as_i64().unwrap() as i32) {
+            for opv in prev["ops"].as_array().unwrap() {
+                if let Out::Val(nv) = tm_apply(&v, &tm_op_from_json(opv).unwrap()) {
+                    v = nv;
+                }
+            }
+        }
+    }
     let init = &case["init"];
     let (n, o) = (init[0].as_str().unwrap().parse::<u64>().unwrap(), init[1].as_i64().unwrap() as i32);
     let mut real = crate::real::time_from(n, o).unwrap();
